@@ -19,15 +19,15 @@ Record satom := {
   sa_charge : Z
 }.
 
-(* one neighbour slot of an atom, in written order *)
-Record slot := {
+(* one neighbour nslot of an atom, in written order *)
+Record nslot := {
   sl_to : nat;              (* partner atom *)
   sl_order2 : Z;            (* bond order in HALF units: 2 single, 3 aromatic, 4 double, 6 triple *)
   sl_mark : option N;       (* '/' or '\' as written at this end *)
   sl_ring : bool            (* ring-closure bond (written as a label) *)
 }.
 
-Record smol := { sm_atoms : list satom; sm_nbrs : list (list slot) }.
+Record smol := { sm_atoms : list satom; sm_nbrs : list (list nslot) }.
 
 (* ---------- lexical helpers ---------- *)
 Definition is_digit (c : N) : bool := ((48 <=? c) && (c <=? 57))%N.
@@ -111,10 +111,10 @@ Definition parse_bracket (body : str) : option satom :=   (* body = text between
 
 (* ---------- tokens ---------- *)
 Inductive stok :=
-| TAtom (a : satom)
-| TBond (order2 : Z) (mark : option N)
-| TOpen | TClose | TDot
-| TRing (label : N).
+| RAtom (a : satom)
+| RBond (order2 : Z) (mark : option N)
+| ROpen | RClose | RDot
+| RRing (label : N).
 
 Fixpoint split_at_rb (s : str) : option (str * str) :=
   match s with
@@ -132,37 +132,37 @@ Fixpoint lex_smiles (fuel : nat) (s : str) : option (list stok) :=
   | [] => Some []
   | c :: r =>
     let k t rest := match lex_smiles f rest with Some l => Some (t :: l) | None => None end in
-    if N.eqb c 40 then k TOpen r
-    else if N.eqb c 41 then k TClose r
-    else if N.eqb c 46 then k TDot r
-    else if N.eqb c 45 then k (TBond 2 None) r
-    else if N.eqb c 61 then k (TBond 4 None) r
-    else if N.eqb c 35 then k (TBond 6 None) r
-    else if N.eqb c 58 then k (TBond 3 None) r
-    else if N.eqb c 47 then k (TBond 2 (Some c)) r
-    else if N.eqb c 92 then k (TBond 2 (Some c)) r
-    else if is_digit c then k (TRing (dval c)) r
+    if N.eqb c 40 then k ROpen r
+    else if N.eqb c 41 then k RClose r
+    else if N.eqb c 46 then k RDot r
+    else if N.eqb c 45 then k (RBond 2 None) r
+    else if N.eqb c 61 then k (RBond 4 None) r
+    else if N.eqb c 35 then k (RBond 6 None) r
+    else if N.eqb c 58 then k (RBond 3 None) r
+    else if N.eqb c 47 then k (RBond 2 (Some c)) r
+    else if N.eqb c 92 then k (RBond 2 (Some c)) r
+    else if is_digit c then k (RRing (dval c)) r
     else if N.eqb c 37 then
       match r with
       | d1 :: d2 :: r' => if is_digit d1 && is_digit d2
-                          then k (TRing (dval d1 * 10 + dval d2)%N) r' else None
+                          then k (RRing (dval d1 * 10 + dval d2)%N) r' else None
       | _ => None end
     else if N.eqb c 91 then
       match split_at_rb r with
       | Some (body, r') => match parse_bracket body with
-                           | Some a => k (TAtom a) r'
+                           | Some a => k (RAtom a) r'
                            | None => None end
       | None => None end
     else
       match r with
       | c2 :: r' =>
-          if mem_str [c; c2] organic then k (TAtom (plain [c; c2] false)) r'
-          else if mem_str [c] organic then k (TAtom (plain [c] false)) r
-          else if mem_str [c] aromatic_organic then k (TAtom (plain [c] true)) r
+          if mem_str [c; c2] organic then k (RAtom (plain [c; c2] false)) r'
+          else if mem_str [c] organic then k (RAtom (plain [c] false)) r
+          else if mem_str [c] aromatic_organic then k (RAtom (plain [c] true)) r
           else None
       | [] =>
-          if mem_str [c] organic then k (TAtom (plain [c] false)) r
-          else if mem_str [c] aromatic_organic then k (TAtom (plain [c] true)) r
+          if mem_str [c] organic then k (RAtom (plain [c] false)) r
+          else if mem_str [c] aromatic_organic then k (RAtom (plain [c] true)) r
           else None
       end
   end end.
@@ -170,14 +170,14 @@ Fixpoint lex_smiles (fuel : nat) (s : str) : option (list stok) :=
 (* ---------- graph construction ---------- *)
 Record rstate := {
   r_atoms : list satom;
-  r_nbrs : list (list (option slot));     (* None = ring label opened, partner not yet known *)
+  r_nbrs : list (list (option nslot));     (* None = ring label opened, partner not yet known *)
   r_prev : option nat;
   r_stack : list (option nat);
   r_pend : option (Z * option N);         (* bond symbol waiting for its atom / label *)
-  r_open : list (N * (nat * nat * option (Z * option N)))  (* label -> (atom, slot position, bond written at the opening) *)
+  r_open : list (N * (nat * nat * option (Z * option N)))  (* label -> (atom, nslot position, bond written at the opening) *)
 }.
 
-Definition set_slot (l : list (option slot)) (pos : nat) (s : slot) : list (option slot) :=
+Definition set_slot (l : list (option nslot)) (pos : nat) (s : nslot) : list (option nslot) :=
   upd l pos (fun _ => Some s).
 
 Fixpoint lookupN {A} (k : N) (l : list (N * A)) : option A :=
@@ -190,7 +190,7 @@ Definition default_order (a b : satom) : Z := if sa_arom a && sa_arom b then 3%Z
 
 Definition step (st : rstate) (t : stok) : option rstate :=
   match t with
-  | TAtom a =>
+  | RAtom a =>
       let k := length (r_atoms st) in
       match r_prev st with
       | None =>
@@ -211,31 +211,31 @@ Definition step (st : rstate) (t : stok) : option rstate :=
                     r_prev := Some k; r_stack := r_stack st; r_pend := None; r_open := r_open st |}
           end
       end
-  | TBond o mk =>
+  | RBond o mk =>
       match r_pend st, r_prev st with
       | None, Some _ => Some {| r_atoms := r_atoms st; r_nbrs := r_nbrs st; r_prev := r_prev st;
                                 r_stack := r_stack st; r_pend := Some (o, mk); r_open := r_open st |}
       | _, _ => None
       end
-  | TOpen =>
+  | ROpen =>
       match r_pend st, r_prev st with
       | None, Some _ => Some {| r_atoms := r_atoms st; r_nbrs := r_nbrs st; r_prev := r_prev st;
                                 r_stack := r_prev st :: r_stack st; r_pend := None; r_open := r_open st |}
       | _, _ => None
       end
-  | TClose =>
+  | RClose =>
       match r_pend st, r_stack st with
       | None, top :: rest => Some {| r_atoms := r_atoms st; r_nbrs := r_nbrs st; r_prev := top;
                                      r_stack := rest; r_pend := None; r_open := r_open st |}
       | _, _ => None
       end
-  | TDot =>
+  | RDot =>
       match r_pend st, r_stack st with
       | None, [] => Some {| r_atoms := r_atoms st; r_nbrs := r_nbrs st; r_prev := None;
                             r_stack := []; r_pend := None; r_open := r_open st |}
       | _, _ => None                              (* dot inside a branch / after a bond: rejected *)
       end
-  | TRing lab =>
+  | RRing lab =>
       match r_prev st with
       | None => None
       | Some k =>
@@ -294,16 +294,16 @@ Fixpoint all_some_rows {A} (l : list (list (option A))) : option (list (list A))
 (* tokens that may not end a SMILES / a fragment *)
 Definition last_ok (ts : list stok) : bool :=
   match rev ts with
-  | TDot :: _ => false
+  | RDot :: _ => false
   | _ => true
   end.
 Fixpoint no_double_dot (ts : list stok) : bool :=
   match ts with
-  | TDot :: ((TDot :: _) as r) => false
+  | RDot :: ((RDot :: _) as r) => false
   | _ :: r => no_double_dot r
   | [] => true
   end.
-Definition first_ok (ts : list stok) : bool := match ts with TDot :: _ => false | _ => true end.
+Definition first_ok (ts : list stok) : bool := match ts with RDot :: _ => false | _ => true end.
 
 (* read: None = not a well-formed SMILES (unbalanced, bad/unpaired label, self bond, …) *)
 Definition read_smiles (s : str) : option smol :=
@@ -347,7 +347,7 @@ Definition capacity (T : list (str * Z)) (a : satom) : option Z :=
   end.
 
 (* sum of bond orders (half units, must be integral for a kekulé structure) *)
-Definition bond_sum2 (row : list slot) : Z := fold_left (fun acc s => (acc + sl_order2 s)%Z) row 0%Z.
+Definition bond_sum2 (row : list nslot) : Z := fold_left (fun acc s => (acc + sl_order2 s)%Z) row 0%Z.
 
 Definition valence_ok (T : list (str * Z)) (m : smol) : bool :=
   forallb (fun '(a, row) =>
